@@ -181,3 +181,22 @@ def jobs(tier, seed):
             jobs.append({"harness": "law", "params": {"cfg": CM, "scaffold": sc, "wraps": w, "spec": spec, "name": name},
                          "weight": 3, "cpu_cap": 900, "wall_cap": 1500})
     return jobs
+
+
+def thorough_extra(seed):
+    jobs = []
+    spec = {n: dict(NOTAB) for n in "abcdefgh"}
+    for m in MARKERS_ALL:
+        if m in ("- ", "12)   "):
+            continue
+        _sharded(jobs, {"cfg": CM, "scaffold": free_doc(3 if m in ("*  ", "1. ", "9) ") else 2, "\n"), "wraps": [f"list:{m}"]}, weight=10, spec=spec)
+    _sharded(jobs, {"cfg": CM, "scaffold": free_doc(3, "\n"), "wraps": ["list:12)   "]}, weight=10, spec=spec)
+    for w in (["quote", "quote"], ["list:- ", "list:1. "], ["quote", "quote", "quote"], ["list:- ", "quote", "list:- "]):
+        _sharded(jobs, {"cfg": CM, "scaffold": free_doc(2, "\n"), "wraps": w}, weight=8, spec=spec)
+    for name, sc in CTX_DOCS:
+        for w in [[f"list:{m}"] for m in MARKERS_ALL[1:]] + [["quote", "quote"], ["list:- ", "quote"], ["quote", "list:1. "]]:
+            jobs.append({"harness": "law", "params": {"cfg": CM, "scaffold": sc, "wraps": w, "spec": spec, "name": name}, "weight": 3})
+    for j in jobs:
+        j["cpu_cap"] = 3000
+        j["wall_cap"] = 4000
+    return jobs
